@@ -261,6 +261,11 @@ def run_sim(spec, listeners=(), failpoints=None, device=None, seed_solution=None
         except BaseException as exc:  # noqa: BLE001 (KeyboardInterrupt included on purpose)
             if isinstance(exc, (SystemExit,)):
                 raise
+            if isinstance(exc, ValueError) and "does not contain any points on the boundary of the mesh" in str(exc) and not spec.get("expect_rejection"):
+                # the generated terminal happens to cover no boundary edge centre of this coarse mesh
+                rr.refused = "refused: generated terminal covers no boundary edge"
+                shutil.rmtree(rr.outdir, ignore_errors=True)
+                return rr
             if isinstance(exc, RuntimeError) and "exactly singular" in str(exc):
                 # SuperLU refuses the (singular, pure-Neumann) Poisson matrix of this mesh outright:
                 # a refusal at construction, counted as a class, not judged by any property here
